@@ -220,7 +220,8 @@ def check_case(p, ctx):
         cells_i = [R.cell_of_cid[order[k]] for k in idx]
         if t.pole is None:
             # straight tissue: all pressures vanish
-            if np.max(np.abs(pres)) > 1e-8 * max(T.values()):
+            floor_sum = sum(turning_floor(t, nint, ri) * T[ri] for ri in internal)
+            if np.max(np.abs(pres)) > 1e-8 * max(T.values()) + 50 * floor_sum:
                 return ctx.violation("straight-tissue-pressure", p, observed=float(np.max(np.abs(pres))), expected=0.0)
             ctx.count("physics:straight-all-zero")
         elif min(nint[ri] for ri in internal) >= 3 and len(idx) >= 6 and not p.get("sub") and p.get("tpow", 1.0) == 1.0:
